@@ -9,6 +9,6 @@ import (
 func TestWorker(t *testing.T) {
 	spec := simkit.EngineSpec{Run: RunChain, Bubble: true, LeakOK: true}
 	simkit.WorkerMain(t, "nodesim", map[string]simkit.EngineSpec{
-		"C02": spec, "C03": spec, "C04": spec, "C05": spec, "C06": spec, "C07": spec, "C11": spec, "C12": spec, "C13": spec, "C14": spec, "C20": spec, "C19": spec, "C09n": spec,
+		"C02": spec, "C03": spec, "C04": spec, "C05": spec, "C06": spec, "C07": spec, "C11": spec, "C12": spec, "C13": spec, "C14": spec, "C20": spec, "C19": spec, "C09": spec,
 	})
 }
